@@ -392,6 +392,125 @@ func (ff *FuncFacts) edgeOut(pred, succ *ssa.BasicBlock) FactSet {
 		for _, a := range ff.fa.condAtoms(iff.Cond, truth, ff.dep) {
 			st[a] = true
 		}
+		for a := range ff.phiCondFacts(iff.Cond, truth) {
+			st[a] = true
+		}
+	}
+	return st
+}
+
+// phiCondFacts: when the branch condition tests a phi (directly, negated, or
+// compared with a constant), the facts implied by the outcome are the
+// intersection, over the incoming edges whose value can produce that outcome,
+// of the facts at the end of that edge plus the atoms of the substituted
+// condition. Edges whose fact set is contradictory are infeasible and skipped.
+func (ff *FuncFacts) phiCondFacts(cond ssa.Value, truth bool) FactSet {
+	for {
+		u, ok := cond.(*ssa.UnOp)
+		if !ok || u.Op != token.NOT {
+			break
+		}
+		cond, truth = u.X, !truth
+	}
+	var phi *ssa.Phi
+	var mk func(e ssa.Value) (atoms []string, decided, val bool)
+	switch x := cond.(type) {
+	case *ssa.Phi:
+		phi = x
+		mk = func(e ssa.Value) ([]string, bool, bool) {
+			if b, ok := constBool(e); ok {
+				return nil, true, b
+			}
+			return ff.fa.condAtoms(e, truth, ff.dep), false, false
+		}
+	case *ssa.BinOp:
+		if x.Op != token.EQL && x.Op != token.NEQ {
+			return nil
+		}
+		var other ssa.Value
+		if p, ok := x.X.(*ssa.Phi); ok {
+			phi, other = p, x.Y
+		} else if p, ok := x.Y.(*ssa.Phi); ok {
+			phi, other = p, x.X
+		}
+		if phi == nil {
+			return nil
+		}
+		oc, isConst := stripConv(other).(*ssa.Const)
+		if !isConst {
+			return nil
+		}
+		mk = func(e ssa.Value) ([]string, bool, bool) {
+			ev := stripConv(e)
+			if ec, ok := ev.(*ssa.Const); ok {
+				same := (ec.Value == nil && oc.Value == nil) || (ec.Value != nil && oc.Value != nil && ec.Value.ExactString() == oc.Value.ExactString())
+				return nil, true, same == (x.Op == token.EQL)
+			}
+			if oc.Value == nil && knownNonNilErr(e) {
+				return nil, true, x.Op == token.NEQ
+			}
+			op := x.Op
+			if !truth {
+				op = negOp(op)
+			}
+			a := describe(e) + " " + op.String() + " " + describe(oc)
+			if _, ok := ff.fa.mentions[a]; !ok {
+				var fs []*types.Var
+				collectFields(e, &fs, 0)
+				ff.fa.mentions[a] = fs
+			}
+			return []string{a}, false, false
+		}
+	default:
+		return nil
+	}
+	var acc FactSet
+	any := false
+	for i, e := range phi.Edges {
+		atoms, decided, val := mk(e)
+		if decided && val != truth {
+			continue
+		}
+		p := phi.Block().Preds[i]
+		es := ff.edgeOutBasic(p, phi.Block())
+		if es == nil {
+			continue // not yet visited: TOP
+		}
+		for _, a := range atoms {
+			es[a] = true
+		}
+		contradictory := false
+		for a := range es {
+			if es[negAtom(a)] {
+				contradictory = true
+				break
+			}
+		}
+		if contradictory {
+			continue
+		}
+		acc = intersect(acc, es)
+		any = true
+	}
+	if !any {
+		return nil
+	}
+	return acc
+}
+
+// edgeOutBasic: like edgeOut but without phi refinement (no recursion).
+func (ff *FuncFacts) edgeOutBasic(pred, succ *ssa.BasicBlock) FactSet {
+	st := ff.out[pred].clone()
+	if st == nil {
+		return nil
+	}
+	if len(pred.Instrs) == 0 {
+		return st
+	}
+	if iff, ok := pred.Instrs[len(pred.Instrs)-1].(*ssa.If); ok && len(pred.Succs) == 2 && pred.Succs[0] != pred.Succs[1] {
+		for _, a := range ff.fa.condAtoms(iff.Cond, pred.Succs[0] == succ, ff.dep) {
+			st[a] = true
+		}
 	}
 	return st
 }
